@@ -441,3 +441,53 @@ Proof.
     + pose proof (step_inv c w r Hi Hd1 Ho1) as Hi1. rewrite Es in Hi1. cbn [fst] in Hi1.
       eapply IH; eassumption.
 Qed.
+
+(* ------------------------------------------------------------------ PDUs that never reach execute *)
+
+Lemma take_words_ok_iff n data : (exists vs, take_words n data = Ok vs) <-> (2 * n <= length data)%nat.
+Proof.
+  revert data. induction n as [|n IH]; intros data.
+  - cbn. split; [intros _; lia|intros _; eexists; reflexivity].
+  - cbn [take_words]. destruct data as [|hi [|lo t]].
+    + split; [intros [vs H]; discriminate H|cbn; lia].
+    + split; [intros [vs H]; discriminate H|cbn; lia].
+    + specialize (IH t). split.
+      * intros [vs H]. destruct (take_words n t) as [r|] eqn:E; cbn [bind] in H; [|discriminate].
+        assert (2 * n <= length t)%nat by (apply IH; eexists; reflexivity). cbn [length]. lia.
+      * intros Hl. cbn [length] in Hl. destruct (proj2 IH ltac:(lia)) as [r Hr]. rewrite Hr. eexists. reflexivity.
+Qed.
+
+(* exactly which FC16 / FC23 PDUs decode: those carrying the register data that decode() reads *)
+Theorem decodable_iff_regs a n bc data :
+  (exists r, decode_attrs (WWriteRegs a n bc data) = Ok r) <-> (2 * Z.to_nat n <= length data)%nat.
+Proof.
+  rewrite <- take_words_ok_iff. cbn [decode_attrs]. split.
+  - intros [r H]. destruct (take_words (Z.to_nat n) data) as [vs|]; [eexists; reflexivity|discriminate H].
+  - intros [vs H]. rewrite H. eexists. reflexivity.
+Qed.
+
+Theorem decodable_iff_rwm ra rn wa wn wbc data :
+  (exists r, decode_attrs (WRWM ra rn wa wn wbc data) = Ok r) <-> (2 * Z.to_nat ((wbc + 1) / 2) <= length data)%nat.
+Proof.
+  rewrite <- take_words_ok_iff. cbn [decode_attrs]. split.
+  - intros [r H]. destruct (take_words _ data) as [vs|]; [eexists; reflexivity|discriminate H].
+  - intros [vs H]. rewrite H. eexists. reflexivity.
+Qed.
+
+(* FC16 quantity 3, byte count 4, four data bytes: the byte count contradicts the quantity (the
+   property demands exception 03) but decode raises struct.error and nothing is answered *)
+Theorem short_register_data_refuted :
+  let w := WWriteRegs 0 3 4 [0; 1; 0; 2] in
+  decode_attrs w = Raise StructError /\ forall s, spec_outcome s w = Some 3.
+Proof. split; [reflexivity|intros s; reflexivity]. Qed.
+
+(* a byte count LARGER than the data carried still reaches execute and is answered 03 *)
+Theorem byte_count_beyond_data_is_03 :
+  forall bc, bc <> 4 ->
+  let w := WWriteRegs 0 2 bc [0; 1; 0; 2] in
+  exists r, decode_attrs w = Ok r /\ snd (serve XC std (ctx1 0) r) = Exc 144 3.
+Proof.
+  intros bc Hbc. eexists. split; [reflexivity|].
+  unfold serve. cbn [r_fc]. rewrite dispatch_16. exec_simpl.
+  replace (negb (bc =? 2 * 2)) with true by lia. reflexivity.
+Qed.
